@@ -493,8 +493,20 @@ class SymEx:
         if isinstance(s, ast.For):
             out = []
             for s2, it in self.ev(s.iter, st, func):
+                seq_value = it
                 it = self.as_sequence(it)
                 if it is None:
+                    # for x in xs: [t = g(x);] acc.append(f(x, t))  with acc still empty  is  acc = [f(x, g(x)) for x in xs]
+                    from .templates import Extractor
+                    al = Extractor._append_loop(s)
+                    if al is not None and isinstance(s2.env.get(al[0]), ListV) and not s2.env[al[0]].items and not s2.env[al[0]].tuple_:
+                        comp = ast.ListComp(elt=al[1], generators=[ast.comprehension(target=s.target, iter=s.iter, ifs=[], is_async=0)])
+                        ast.copy_location(comp, s)
+                        ast.fix_missing_locations(comp)
+                        for s3, v in self.comprehension(comp, s2, func):
+                            s3.env[al[0]] = v
+                            out.append((s3, NORET))
+                        continue
                     raise AnalysisError('symex: loop over a symbolic sequence at %s line %d' % (_where(func), s.lineno))
                 states = [(s2, NORET)]
                 for item in it:
@@ -1365,6 +1377,23 @@ class SymEx:
             for s2, _ in res:
                 s2.env = s2.stack.pop()
             return res
+        if isinstance(f, Opaque) and f.text in ('itertools.starmap', 'starmap') and len(args) == 2 and not kw:
+            rows = self.as_sequence(args[1])
+            if rows is None and isinstance(args[1], DictV):
+                rows = None
+            if rows is not None and all(self.as_sequence(r) is not None for r in rows):
+                cur = st
+                out = []
+                for r in rows:
+                    res = self.apply(e, args[0], list(self.as_sequence(r)), {}, cur, func)
+                    if len(res) != 1:
+                        return [(st, CallV('starmap', args, node=e))]
+                    cur, v = res[0]
+                    if isinstance(v, CallV) and _raised(v):
+                        return [(cur, v)]
+                    out.append(v)
+                return [(cur, ListV(out))]
+            return [(st, CallV('starmap', args, node=e))]
         if isinstance(f, Opaque) and f.text == 'itertools.chain.from_iterable' and args:
             seq = self.as_sequence(args[0])
             if seq is not None and all(self.as_sequence(x) is not None for x in seq):
